@@ -22,7 +22,22 @@ that the native layer runs against the real objects):
       `grp` injective on the tree's levels (assumption A-GRP, see the finding in the report),
     - `ncommon(xs, qs)`  = len(set(qs).intersection(set(xs))) - built from the same set
       operations as the code, so that equal lists give equal counts by congruence,
-    - `mc_same(a, b)`  = the two values are identical (term equality; implies `a == b`).
+    - `mc_same(a, b)`  = the two values are identical (term equality; implies `a == b`),
+    - `pool(T, ML, level, node, own, i)`  recursive definition (unfolded once per ground use),
+    - named predicates (define_predicate: an uninterpreted boolean function + the axiom
+      "NAME(args) == <clause text>"; the text is the single definition, also executed natively):
+      `fallback_ok` (FALLBACK_DEF = the fallback rule of C08 / DESIGN A.3), `group_ok`, `stored_ok`,
+      `kept_ok`, `listed`,
+    - `lidx`, `is_node`: level index / node-hood of the MCTree view.
+* set theory for specification terms under quantifiers (set_theory_axioms): the defining axioms of
+  set(xs), a & b, a | b, a - b that the engine states per ground application, quantified over the
+  operands; plus three lemmas that hold for finite sets (q & (a | b) empty iff both parts empty;
+  q & a empty when q or a is empty; |a & b| = |b & a|).
+* HDF5: a file opened read-only is a fixed set of group names (`h5_has`, reconcile_taxonomy_and_
+  markers only); a file opened for writing is a handle whose `create_group(k).create_dataset(
+  'reference'|'query', data=a)` records `a` in the ghost dictionaries written_ref / written_query
+  (write_query_markers_to_h5, create_marker_cache_from_specified_markers only).  The HDF5 round trip
+  itself is trusted; the native layer reads the real file back.
 """
 import ast
 import z3
@@ -105,6 +120,7 @@ def mct_parents(ev, state, node, recv, ref):
 
 
 def _wf_mctree_sym(ev, state, node):
+    ev.ctx.trusted_used.add('marker_cache:wf_mctree (caller view of TaxonomyTree.hierarchy/all_parents/children/parents)')
     t = ev.eval(state, node.args[0])
     tt = t.term
     h = select(t, ('fld', 'hierarchy'))
@@ -337,6 +353,7 @@ def need_set_theory(ev, elt_ty=T.NAME):
     if key not in done:
         done.add(key)
         ev.ctx.axioms.extend(set_theory_axioms(elt_ty))
+        ev.ctx.trusted_used.add('marker_cache:set-theory axioms + lemmas (union/empty/commutative cardinality)')
 
 
 @prims.spec_function('lidx', native=lambda t, level: list(t.hierarchy).index(level))
@@ -512,6 +529,7 @@ def _h5_has_native(path, key):
 def s_h5_has(ev, state, node):
     from ..values import set_has
     path, key = [ev.eval(state, a) for a in node.args]
+    ev.ctx.trusted_used.add('marker_cache:h5_has (read-only HDF5 file = fixed set of group names)')
     return SymVal(T.BOOL, set_has(_h5_keys(path))[_name_arg(key)])
 
 
